@@ -827,6 +827,22 @@ def canonicalise(tree: ast.AST) -> None:
                 node.body, node.orelse = node.orelse, node.body
     _normalise_len_compares(tree)
     _truth_tests_of_lengths(tree)
+    # assert A and B[, msg]   ->   assert A[, msg] ; assert B[, msg]
+    for node in ast.walk(tree):
+        for fld in ("body", "orelse", "finalbody"):
+            seq = getattr(node, fld, None)
+            if not (isinstance(seq, list) and seq and isinstance(seq[0], ast.stmt)):
+                continue
+            i = 0
+            while i < len(seq):
+                st = seq[i]
+                if isinstance(st, ast.Assert) and isinstance(st.test, ast.BoolOp) and isinstance(st.test.op, ast.And):
+                    new = [ast.copy_location(ast.Assert(test=v, msg=copy.deepcopy(st.msg) if st.msg is not None else None), st) for v in st.test.values]
+                    for x in new:
+                        ast.fix_missing_locations(x)
+                    seq[i:i + 1] = new
+                    continue
+                i += 1
 
 
 def _read_through_name_aliases(fn: ast.AST) -> None:
